@@ -64,8 +64,11 @@ Record ccase := {
   c_loadable : list str;              (* vars paths whose real file is a loadable module *)
   c_fetch_ok : list source;           (* sources that deliver data *)
   c_doc : yv; c_args : args;
-  c_entry : N;                        (* 0 from_dict, 1 from_yaml, 2 from_yaml(source_path), 3 resolver *)
-  c_src : str;                        (* pipeline file (entries 2, 3) *)
+  c_entry : N;                        (* 0 from_dict, 1 from_yaml, 2 from_yaml(source_path), 3 resolver (any route) *)
+  c_src : str;                        (* the string by which the pipeline file reaches the loader (entries 2, 3):
+                                         source_path of from_yaml, the spec of resolve_pipeline, or the path that
+                                         ProcessingPipelineResolver.resolve found for a file or under a directory spec *)
+  c_extra : nat;                      (* capability-free items merged in from sibling pipeline files of a directory spec *)
   c_phs : list str;                   (* placeholders of the converted rule *)
   c_sargs : args;                     (* what the specification counts as granted by the caller / in force *)
   i_load : N; i_tree : option otree; i_conv : option N;
@@ -94,8 +97,19 @@ Definition std_real : list (str * list str) := Eval vm_compute in
    (lit "/$ROOT/outside/link_in.py", [lit "$ROOT"; lit "allowed"; lit "v_in.py"]);
    (lit "/$ROOT/outside/v_out.py", [lit "$ROOT"; lit "outside"; lit "v_out.py"]);
    (lit "/$ROOT/pipe", [lit "$ROOT"; lit "pipe"]);
+   (lit "/$ROOT/pipe/../outside/v_out.py", [lit "$ROOT"; lit "outside"; lit "v_out.py"]);
+   (lit "/$ROOT/pipe/link_out.py", [lit "$ROOT"; lit "outside"; lit "v_out.py"]);
    (lit "/$ROOT/pipe/pipeline.yml", [lit "$ROOT"; lit "pipe"; lit "pipeline.yml"]);
-   (lit "/$ROOT/pipe/v_pipe.py", [lit "$ROOT"; lit "pipe"; lit "v_pipe.py"])].
+   (lit "/$ROOT/pipe/sub/../pipeline.yml", [lit "$ROOT"; lit "pipe"; lit "pipeline.yml"]);
+   (lit "/$ROOT/pipe/sub/deep", [lit "$ROOT"; lit "pipe"; lit "sub"; lit "deep"]);
+   (lit "/$ROOT/pipe/sub/deep/../../v_pipe.py", [lit "$ROOT"; lit "pipe"; lit "v_pipe.py"]);
+   (lit "/$ROOT/pipe/sub/deep/below/v_below.py", [lit "$ROOT"; lit "pipe"; lit "sub"; lit "deep"; lit "below"; lit "v_below.py"]);
+   (lit "/$ROOT/pipe/sub/deep/link_up.py", [lit "$ROOT"; lit "pipe"; lit "v_pipe.py"]);
+   (lit "/$ROOT/pipe/sub/deep/pipeline.yml", [lit "$ROOT"; lit "pipe"; lit "sub"; lit "deep"; lit "pipeline.yml"]);
+   (lit "/$ROOT/pipe/sub/deep/v_deep.py", [lit "$ROOT"; lit "pipe"; lit "sub"; lit "deep"; lit "v_deep.py"]);
+   (lit "/$ROOT/pipe/v_pipe.py", [lit "$ROOT"; lit "pipe"; lit "v_pipe.py"]);
+   (lit "/$ROOT/pipealias/pipeline.yml", [lit "$ROOT"; lit "pipe"; lit "pipeline.yml"]);
+   (lit "/$ROOT/pipealias/v_pipe.py", [lit "$ROOT"; lit "pipe"; lit "v_pipe.py"])].
 Definition std_loadable : list str := Eval vm_compute in
   [lit "/$ROOT/allowed/v_in.py";
    lit "/$ROOT/allowed/sub/v_sub.py";
@@ -106,7 +120,14 @@ Definition std_loadable : list str := Eval vm_compute in
    lit "/$ROOT/outside/v_out.py";
    lit "/$ROOT/outside/link_in.py";
    lit "/$ROOT/alias/v_in.py";
-   lit "/$ROOT/pipe/v_pipe.py"].
+   lit "/$ROOT/pipe/v_pipe.py";
+   lit "/$ROOT/pipe/sub/deep/v_deep.py";
+   lit "/$ROOT/pipe/sub/deep/below/v_below.py";
+   lit "/$ROOT/pipe/sub/deep/../../v_pipe.py";
+   lit "/$ROOT/pipe/sub/deep/link_up.py";
+   lit "/$ROOT/pipe/link_out.py";
+   lit "/$ROOT/pipe/../outside/v_out.py";
+   lit "/$ROOT/pipealias/v_pipe.py"].
 
 Definition unknown_comp : str := lit "?unknown".
 Definition real_of (tbl : list (str * list str)) (s : str) : list str :=
@@ -128,9 +149,10 @@ Definition judge (c : ccase) : N :=
   let E := env_of c in
   let lr := if N.eqb (c_entry c) 3 then load_resolver E (c_doc c) (c_src c)
             else load_yaml E (c_doc c) (c_args c) (if N.eqb (c_entry c) 2 then Some (c_src c) else None) in
-  let mtree := match fst lr with Ok t => Some (obs_tree t) | _ => None end in
+  let merged := fun t => {| t_items := t_items t ++ repeat NPlain (c_extra c); t_post := t_post t; t_fin := t_fin t |} in
+  let mtree := match fst lr with Ok t => Some (obs_tree (merged t)) | _ => None end in
   let cr := match fst lr with
-            | Ok t => let r := convert E t (c_phs c) in (Some (oclass (fst r)), snd r)
+            | Ok t => let r := convert E (merged t) (c_phs c) in (Some (oclass (fst r)), snd r)
             | _ => (None, [])
             end in
   let agree :=
